@@ -5,7 +5,9 @@
 // modes (--opt mode=): wire (default) | frame (8-byte stream frame: three gateways in memory + TCP loopback echo through
 //                      message_transceiver_thread.py) | regress (fixed witnesses + documentation examples)
 // options: pypeer=<path of wire_peer.py> python=<interpreter> emit=<side file of {case,script,cpp} lines>
-//          mask=pynames,umzero,pyexample (silence the defects found on the pinned tree; they are counted as masked_*)
+//          mask=pynames,umzero,pyexample (only for trees older than the repairs of the three defects this harness found: message.py
+//          FlattenedSize() with non-ASCII field names, message.py str items in user-typed fields, UMFindData zero-length last item;
+//          each keeps its own stable key and a fixed witness in regress mode)
 #include "message/Message.h"
 #include "iogateway/MessageIOGateway.h"
 #include "dataio/TCPSocketDataIO.h"
@@ -40,6 +42,9 @@ static void HarnessAbort(const std::string & why) { fprintf(stderr, "HARNESS-ABO
 struct Scr;
 struct Fld {
    std::string name; uint32 type;
+   uint32 rawCode; bool pyStr;    // raw fields: B_RAW_TYPE or a user type code; pyStr: the items are UTF-8 text + NUL and the Python leg passes them as str objects
+   Fld() : type(0), rawCode(B_RAW_TYPE), pyStr(false) {}
+   uint32 Code() const { return type == B_RAW_TYPE ? rawCode : type; }
    std::vector<int64_t> iv;        // bool, int8..int64
    std::vector<uint64_t> bits;     // float (1 word/item), double (1), point (2), rect (4): IEEE bit patterns, never C++ floats
    std::vector<std::string> sv;    // string (no NUL inside), raw
@@ -189,7 +194,14 @@ static Scr Gen(int depth, const Prof & p)
          case B_POINT_TYPE:  for (uint32 k = 0; k < 2 * n; k++) f.bits.push_back(GenF32(nanPR)); break;
          case B_RECT_TYPE:   for (uint32 k = 0; k < 4 * n; k++) f.bits.push_back(GenF32(nanPR)); break;
          case B_STRING_TYPE: for (uint32 k = 0; k < n; k++) f.sv.push_back(GenStr(p)); break;
-         case B_RAW_TYPE:    for (uint32 k = 0; k < n; k++) f.sv.push_back(GenRaw(p)); break;
+         case B_RAW_TYPE:
+            if (R(6) == 0) {   // user type code: same variable-size convention; no zero-length items (the C++ AddData refuses them and AddFlat(ByteBuffer) is B_RAW_TYPE)
+               static const uint32 codes[] = {555, 1, 0x61626364u, 0x7FFFFFFFu, 0xFFFFFFFEu}; f.rawCode = codes[R(5)]; f.pyStr = R(2) == 0;
+               Prof sp = p; sp.pySafe = true;
+               for (uint32 k = 0; k < n; k++) { std::string it = f.pyStr ? GenStr(sp) + std::string(1, '\0') : GenRaw(p); if (it.empty()) it = "\x7f"; f.sv.push_back(it); }
+            }
+            else for (uint32 k = 0; k < n; k++) f.sv.push_back(GenRaw(p));
+            break;
          case B_MESSAGE_TYPE: for (uint32 k = 0; k < n; k++) f.mv.push_back(Gen(depth + 1, p)); break;
       }
       s.f.push_back(f);
@@ -197,7 +209,7 @@ static Scr Gen(int depth, const Prof & p)
    return s;
 }
 
-struct Info { bool nonUtf8, nanPtRc, nonAsciiName; uint32 depth, fields, items, perType[12], nanItems, emptyNames, zeroRaw, emptyStr, utf8Str, multiItemFields, maxCount;
+struct Info { bool nonUtf8, nanPtRc, nonAsciiName; uint32 depth, fields, items, perType[12], nanItems, emptyNames, zeroRaw, emptyStr, utf8Str, multiItemFields, maxCount, userTyped, pyStrFields;
    Info() { memset(this, 0, sizeof(*this)); } };
 static void Walk(const Scr & s, Info & in, uint32 depth)
 {
@@ -211,7 +223,7 @@ static void Walk(const Scr & s, Info & in, uint32 depth)
          case B_DOUBLE_TYPE: for (size_t k = 0; k < f.bits.size(); k++) if (IsNaN64(f.bits[k])) in.nanItems++; break;
          case B_POINT_TYPE: case B_RECT_TYPE: for (size_t k = 0; k < f.bits.size(); k++) if (IsNaN32((uint32_t)f.bits[k])) in.nanPtRc = true; break;
          case B_STRING_TYPE: for (size_t k = 0; k < f.sv.size(); k++) { if (f.sv[k].empty()) in.emptyStr++; if (!IsValidUtf8(f.sv[k])) in.nonUtf8 = true; else if (!IsAscii(f.sv[k])) in.utf8Str++; } break;
-         case B_RAW_TYPE: for (size_t k = 0; k < f.sv.size(); k++) if (f.sv[k].empty()) in.zeroRaw++; break;
+         case B_RAW_TYPE: for (size_t k = 0; k < f.sv.size(); k++) if (f.sv[k].empty()) in.zeroRaw++; if (f.rawCode != B_RAW_TYPE) in.userTyped++; if (f.pyStr) in.pyStrFields++; break;
          case B_MESSAGE_TYPE: for (size_t k = 0; k < f.mv.size(); k++) Walk(f.mv[k], in, depth + 1); break;
          default: break;
       }
@@ -231,7 +243,7 @@ static void Json(const Scr & s, std::string & o)
    char b[48]; snprintf(b, sizeof(b), "{\"what\":%u,\"fields\":[", s.what); o += b;
    for (size_t i = 0; i < s.f.size(); i++) {
       const Fld & f = s.f[i]; if (i) o += ',';
-      o += "{\"n\":"; JName(f.name, o); o += ",\"t\":\""; o += TNAME[TIdx(f.type)]; o += "\",\"v\":[";
+      o += "{\"n\":"; JName(f.name, o); o += ",\"t\":\""; if (f.Code() == f.type) o += TNAME[TIdx(f.type)]; else { snprintf(b, sizeof(b), "#%u", f.rawCode); o += b; } o += f.pyStr ? "\",\"pystr\":1,\"v\":[" : "\",\"v\":[";
       switch (f.type) {
          case B_FLOAT_TYPE: case B_DOUBLE_TYPE: for (size_t k = 0; k < f.bits.size(); k++) { snprintf(b, sizeof(b), "%s%llu", k ? "," : "", (unsigned long long)f.bits[k]); o += b; } break;
          case B_POINT_TYPE: case B_RECT_TYPE: { const size_t a = f.type == B_POINT_TYPE ? 2 : 4; for (size_t k = 0; k < f.bits.size(); k++) { snprintf(b, sizeof(b), "%s%s%llu%s", (k && k % a == 0) ? "," : "", k % a == 0 ? "[" : ",", (unsigned long long)f.bits[k], k % a == a - 1 ? "]" : ""); o += b; } } break;
@@ -286,7 +298,7 @@ static MessageRef BuildCpp(const Scr & s)
          case B_POINT_TYPE:  for (size_t k = 0; k + 1 < f.bits.size(); k += 2) CK(m()->AddPoint(n, Point(BF(f.bits[k]), BF(f.bits[k + 1]))), "AddPoint"); break;
          case B_RECT_TYPE:   for (size_t k = 0; k + 3 < f.bits.size(); k += 4) CK(m()->AddRect(n, Rect(BF(f.bits[k]), BF(f.bits[k + 1]), BF(f.bits[k + 2]), BF(f.bits[k + 3]))), "AddRect"); break;
          case B_STRING_TYPE: for (size_t k = 0; k < f.sv.size(); k++) CK(m()->AddString(n, String(f.sv[k].c_str())), "AddString"); break;
-         case B_RAW_TYPE:    for (size_t k = 0; k < f.sv.size(); k++) { if (f.sv[k].size()) CK(m()->AddData(n, B_RAW_TYPE, f.sv[k].data(), (uint32)f.sv[k].size()), "AddData"); else CK(m()->AddFlat(n, GetByteBufferFromPool(0)), "AddFlat(0 bytes)"); } break;
+         case B_RAW_TYPE:    for (size_t k = 0; k < f.sv.size(); k++) { if (f.sv[k].size()) CK(m()->AddData(n, f.rawCode, f.sv[k].data(), (uint32)f.sv[k].size()), "AddData"); else CK(m()->AddFlat(n, GetByteBufferFromPool(0)), "AddFlat(0 bytes)"); } break;
          case B_MESSAGE_TYPE: for (size_t k = 0; k < f.mv.size(); k++) CK(m()->AddMessage(n, BuildCpp(f.mv[k])), "AddMessage"); break;
       }
    }
@@ -309,7 +321,7 @@ static bool CheckCpp(const Message & m, const Scr & s, std::string & why)
    for (size_t i = 0; i < s.f.size(); i++) {
       const Fld & f = s.f[i]; const String n(f.name.c_str()); uint32 tc = 0, cnt = 0;
       if (m.GetInfo(n, &tc, &cnt).IsError()) BAD("GetInfo('%s') fails", n());
-      if (tc != f.type || cnt != f.Count()) BAD("field '%s': type %08x count %u, script says %08x count %u", n(), tc, cnt, f.type, f.Count());
+      if (tc != f.Code() || cnt != f.Count()) BAD("field '%s': type %08x count %u, script says %08x count %u", n(), tc, cnt, f.Code(), f.Count());
       for (uint32 k = 0; k < cnt; k++) {
          bool ok = true;
          switch (f.type) {
@@ -324,7 +336,7 @@ static bool CheckCpp(const Message & m, const Scr & s, std::string & why)
             case B_RECT_TYPE:   { Rect v; ok = m.FindRect(n, k, v).IsOK() && FB(v.left()) == (uint32_t)f.bits[4 * k] && FB(v.top()) == (uint32_t)f.bits[4 * k + 1] && FB(v.right()) == (uint32_t)f.bits[4 * k + 2] && FB(v.bottom()) == (uint32_t)f.bits[4 * k + 3]; } break;
             case B_STRING_TYPE: { const String * v = NULL; ok = m.FindString(n, k, &v).IsOK() && v && v->Length() == f.sv[k].size() && memcmp(v->Cstr(), f.sv[k].data(), f.sv[k].size()) == 0; } break;
             case B_RAW_TYPE:    { ConstByteBufferRef bb; ok = m.FindFlat(n, k, bb).IsOK() && bb() && bb()->GetNumBytes() == f.sv[k].size() && (f.sv[k].empty() || memcmp(bb()->GetBuffer(), f.sv[k].data(), f.sv[k].size()) == 0);
-                                  if (ok && f.sv[k].size()) { const void * p = NULL; uint32 nb = 0; ok = m.FindData(n, B_RAW_TYPE, k, &p, &nb).IsOK() && nb == f.sv[k].size() && memcmp(p, f.sv[k].data(), nb) == 0; } } break;
+                                  if (ok && f.sv[k].size()) { const void * p = NULL; uint32 nb = 0; ok = m.FindData(n, f.rawCode, k, &p, &nb).IsOK() && nb == f.sv[k].size() && memcmp(p, f.sv[k].data(), nb) == 0; } } break;
             case B_MESSAGE_TYPE: { ConstMessageRef sub; if (m.FindMessage(n, k, sub).IsError() || sub() == NULL) ok = false; else { std::string w2; if (!CheckCpp(*sub(), f.mv[k], w2)) BAD("'%s'[%u]/%s", n(), k, w2.c_str()); } } break;
          }
          if (!ok) BAD("field '%s' item %u: getter disagrees with the script", n(), k);
@@ -351,7 +363,7 @@ static MMessage * BuildMM(const Scr & s)
          case B_POINT_TYPE:  { MPoint * p = MMPutPointField(m, MFalse, n, c); MCK(p, "MMPutPointField"); for (uint32 k = 0; k < c; k++) { p[k].x = BF(f.bits[2 * k]); p[k].y = BF(f.bits[2 * k + 1]); } } break;
          case B_RECT_TYPE:   { MRect * p = MMPutRectField(m, MFalse, n, c); MCK(p, "MMPutRectField"); for (uint32 k = 0; k < c; k++) { p[k].left = BF(f.bits[4 * k]); p[k].top = BF(f.bits[4 * k + 1]); p[k].right = BF(f.bits[4 * k + 2]); p[k].bottom = BF(f.bits[4 * k + 3]); } } break;
          case B_STRING_TYPE: { MByteBuffer ** p = MMPutStringField(m, MFalse, n, c); MCK(p, "MMPutStringField"); for (uint32 k = 0; k < c; k++) { p[k] = MBStrdupByteBuffer(f.sv[k].c_str()); MCK(p[k], "MBStrdupByteBuffer"); } } break;
-         case B_RAW_TYPE:    { MByteBuffer ** p = MMPutDataField(m, MFalse, B_RAW_TYPE, n, c); MCK(p, "MMPutDataField"); for (uint32 k = 0; k < c; k++) { p[k] = MBAllocByteBuffer((uint32)f.sv[k].size(), MFalse); MCK(p[k], "MBAllocByteBuffer"); if (f.sv[k].size()) memcpy(&p[k]->bytes, f.sv[k].data(), f.sv[k].size()); } } break;
+         case B_RAW_TYPE:    { MByteBuffer ** p = MMPutDataField(m, MFalse, f.rawCode, n, c); MCK(p, "MMPutDataField"); for (uint32 k = 0; k < c; k++) { p[k] = MBAllocByteBuffer((uint32)f.sv[k].size(), MFalse); MCK(p[k], "MBAllocByteBuffer"); if (f.sv[k].size()) memcpy(&p[k]->bytes, f.sv[k].data(), f.sv[k].size()); } } break;
          case B_MESSAGE_TYPE: { MMessage ** p = MMPutMessageField(m, MFalse, n, c); MCK(p, "MMPutMessageField"); for (uint32 k = 0; k < c; k++) p[k] = BuildMM(f.mv[k]); } break;
       }
    }
@@ -362,7 +374,7 @@ static bool CheckMM(const MMessage * m, const Scr & s, std::string & why)
 {
    if (MMGetWhat(m) != s.what) BAD("what is %u, script says %u", MMGetWhat(m), s.what);
    MMessageIterator it = MMGetFieldNameIterator(m, B_ANY_TYPE); const char * fn; uint32 tc; size_t idx = 0;
-   while ((fn = MMGetNextFieldName(&it, &tc)) != NULL) { if (idx >= s.f.size() || s.f[idx].name != fn || tc != s.f[idx].type) BAD("field #%zu is '%s' type %08x", idx, fn, tc); idx++; }
+   while ((fn = MMGetNextFieldName(&it, &tc)) != NULL) { if (idx >= s.f.size() || s.f[idx].name != fn || tc != s.f[idx].Code()) BAD("field #%zu is '%s' type %08x", idx, fn, tc); idx++; }
    if (idx != s.f.size()) BAD("%zu fields, script says %zu", idx, s.f.size());
    for (size_t i = 0; i < s.f.size(); i++) {
       const Fld & f = s.f[i]; const char * n = f.name.c_str(); uint32 c = 0xFFFFFFFFu; bool ok = true; const uint32 want = f.Count();
@@ -377,7 +389,7 @@ static bool CheckMM(const MMessage * m, const Scr & s, std::string & why)
          case B_POINT_TYPE:  { MPoint * p = MMGetPointField(m, n, &c); ok = p && c == want; for (uint32 k = 0; ok && k < c; k++) ok = FB(p[k].x) == (uint32_t)f.bits[2 * k] && FB(p[k].y) == (uint32_t)f.bits[2 * k + 1]; } break;
          case B_RECT_TYPE:   { MRect * p = MMGetRectField(m, n, &c); ok = p && c == want; for (uint32 k = 0; ok && k < c; k++) ok = FB(p[k].left) == (uint32_t)f.bits[4 * k] && FB(p[k].top) == (uint32_t)f.bits[4 * k + 1] && FB(p[k].right) == (uint32_t)f.bits[4 * k + 2] && FB(p[k].bottom) == (uint32_t)f.bits[4 * k + 3]; } break;
          case B_STRING_TYPE: { MByteBuffer ** p = MMGetStringField(m, n, &c); ok = p && c == want; for (uint32 k = 0; ok && k < c; k++) ok = p[k] && p[k]->numBytes == f.sv[k].size() + 1 && memcmp(&p[k]->bytes, f.sv[k].c_str(), f.sv[k].size() + 1) == 0; } break;
-         case B_RAW_TYPE:    { MByteBuffer ** p = MMGetDataField(m, B_RAW_TYPE, n, &c); ok = p && c == want; for (uint32 k = 0; ok && k < c; k++) ok = p[k] && p[k]->numBytes == f.sv[k].size() && (f.sv[k].empty() || memcmp(&p[k]->bytes, f.sv[k].data(), f.sv[k].size()) == 0); } break;
+         case B_RAW_TYPE:    { MByteBuffer ** p = MMGetDataField(m, f.rawCode, n, &c); ok = p && c == want; for (uint32 k = 0; ok && k < c; k++) ok = p[k] && p[k]->numBytes == f.sv[k].size() && (f.sv[k].empty() || memcmp(&p[k]->bytes, f.sv[k].data(), f.sv[k].size()) == 0); } break;
          case B_MESSAGE_TYPE: { MMessage ** p = MMGetMessageField(m, n, &c); ok = p && c == want; for (uint32 k = 0; ok && k < c; k++) { std::string w2; if (!p[k] || !CheckMM(p[k], f.mv[k], w2)) BAD("'%s'[%u]/%s", n, k, w2.c_str()); } } break;
       }
       if (!ok) BAD("field '%s' (%s, %u items): getter disagrees with the script (count %u)", n, TNAME[TIdx(f.type)], want, c);
@@ -403,7 +415,7 @@ static c_status_t BuildUM(const Scr & s, UMessage * um)
          case B_POINT_TYPE:  { std::vector<UPoint> v(c); for (uint32 k = 0; k < c; k++) { v[k].x = BF(f.bits[2 * k]); v[k].y = BF(f.bits[2 * k + 1]); } r = UMAddPoints(um, n, v.data(), c); } break;
          case B_RECT_TYPE:   { std::vector<URect> v(c); for (uint32 k = 0; k < c; k++) { v[k].left = BF(f.bits[4 * k]); v[k].top = BF(f.bits[4 * k + 1]); v[k].right = BF(f.bits[4 * k + 2]); v[k].bottom = BF(f.bits[4 * k + 3]); } r = UMAddRects(um, n, v.data(), c); } break;
          case B_STRING_TYPE: { std::vector<const char *> v; for (uint32 k = 0; k < c; k++) v.push_back(f.sv[k].c_str()); if ((i + s.what) & 1) r = UMAddStrings(um, n, v.data(), c); else for (uint32 k = 0; k < c && r == CB_NO_ERROR; k++) r = UMAddString(um, n, v[k]); } break;
-         case B_RAW_TYPE:    for (uint32 k = 0; k < c && r == CB_NO_ERROR; k++) r = UMAddData(um, n, B_RAW_TYPE, f.sv[k].data(), (uint32)f.sv[k].size()); break;
+         case B_RAW_TYPE:    for (uint32 k = 0; k < c && r == CB_NO_ERROR; k++) r = UMAddData(um, n, f.rawCode, f.sv[k].data(), (uint32)f.sv[k].size()); break;
          case B_MESSAGE_TYPE: for (uint32 k = 0; k < c && r == CB_NO_ERROR; k++) { UMessage sub = UMInlineAddMessage(um, n, f.mv[k].what); if (!UMIsMessageValid(&sub) || UMIsMessageReadOnly(&sub)) { r = CB_ERROR; break; } r = BuildUM(f.mv[k], &sub); } break;
       }
    }
@@ -415,11 +427,11 @@ static bool CheckUM(const UMessage * m, const Scr & s, std::string & why)
    if (UMGetWhatCode(m) != s.what) BAD("what is %u, script says %u", UMGetWhatCode(m), s.what);
    if (UMGetNumFields(m) != s.f.size()) BAD("%u fields, script says %zu", UMGetNumFields(m), s.f.size());
    UMessageFieldNameIterator it; UMIteratorInitialize(&it, m, B_ANY_TYPE); size_t idx = 0;
-   for (;; idx++) { uint32 ni = 0, ft = 0; const char * fn = UMIteratorGetCurrentFieldName(&it, &ni, &ft); if (!fn) break; if (idx >= s.f.size() || s.f[idx].name != fn || ft != s.f[idx].type || ni != s.f[idx].Count()) BAD("iterator: field #%zu is '%s' type %08x with %u items", idx, fn, ft, ni); UMIteratorAdvance(&it); }
+   for (;; idx++) { uint32 ni = 0, ft = 0; const char * fn = UMIteratorGetCurrentFieldName(&it, &ni, &ft); if (!fn) break; if (idx >= s.f.size() || s.f[idx].name != fn || ft != s.f[idx].Code() || ni != s.f[idx].Count()) BAD("iterator: field #%zu is '%s' type %08x with %u items", idx, fn, ft, ni); UMIteratorAdvance(&it); }
    if (idx != s.f.size()) BAD("iterator visits %zu fields, script says %zu", idx, s.f.size());
    for (size_t i = 0; i < s.f.size(); i++) {
       const Fld & f = s.f[i]; const char * n = f.name.c_str(); const uint32 c = f.Count();
-      if (UMGetFieldTypeCode(m, n) != f.type || UMGetNumItemsInField(m, n, f.type) != c) BAD("field '%s': type %08x items %u", n, UMGetFieldTypeCode(m, n), UMGetNumItemsInField(m, n, f.type));
+      if (UMGetFieldTypeCode(m, n) != f.Code() || UMGetNumItemsInField(m, n, f.Code()) != c) BAD("field '%s': type %08x items %u", n, UMGetFieldTypeCode(m, n), UMGetNumItemsInField(m, n, f.Code()));
       for (uint32 k = 0; k < c; k++) {
          bool ok = true;
          switch (f.type) {
@@ -433,7 +445,7 @@ static bool CheckUM(const UMessage * m, const Scr & s, std::string & why)
             case B_POINT_TYPE:  { UPoint v; ok = UMFindPoint(m, n, k, &v) == CB_NO_ERROR && FB(v.x) == (uint32_t)f.bits[2 * k] && FB(v.y) == (uint32_t)f.bits[2 * k + 1]; } break;
             case B_RECT_TYPE:   { URect v; ok = UMFindRect(m, n, k, &v) == CB_NO_ERROR && FB(v.left) == (uint32_t)f.bits[4 * k] && FB(v.top) == (uint32_t)f.bits[4 * k + 1] && FB(v.right) == (uint32_t)f.bits[4 * k + 2] && FB(v.bottom) == (uint32_t)f.bits[4 * k + 3]; } break;
             case B_STRING_TYPE: { const char * v = UMGetString(m, n, k); ok = v && f.sv[k] == v; } break;
-            case B_RAW_TYPE:    { const void * p = NULL; uint32 nb = 0xFFFFFFFFu; const c_status_t fr = UMFindData(m, n, B_RAW_TYPE, k, &p, &nb);
+            case B_RAW_TYPE:    { const void * p = NULL; uint32 nb = 0xFFFFFFFFu; const c_status_t fr = UMFindData(m, n, f.rawCode, k, &p, &nb);
                                   if (fr != CB_NO_ERROR && f.sv[k].empty() && k + 1 == c) { umZeroLast = true; Known("umzero", "micro|finddata-zero-length-last-item", vh::fmt("UMFindData('%s', B_RAW_TYPE, %u) returns CB_ERROR for a zero-length item that is the last of its field (UMGetNumItemsInField counts it: %u)", n, k, c)); }
                                   else ok = fr == CB_NO_ERROR && nb == f.sv[k].size() && (nb == 0 || memcmp(p, f.sv[k].data(), nb) == 0); } break;
             case B_MESSAGE_TYPE: { UMessage sub; if (UMFindMessage(m, n, k, &sub) != CB_NO_ERROR) ok = false; else { std::string w2; if (!CheckUM(&sub, f.mv[k], w2)) BAD("'%s'[%u]/%s", n, k, w2.c_str()); } } break;
@@ -651,14 +663,14 @@ static void RunWire(long k, const Scr & s, bool countStats)
       for (int i = 0; i < 12; i++) if (in.perType[i]) vh::stat(std::string("items_") + TNAME[i], in.perType[i]);
       if (in.depth) vh::stat("msgs_with_nesting"); if (in.nanItems) vh::stat("nan_float_double_items", in.nanItems); if (in.nanPtRc) vh::stat("msgs_with_nan_in_point_rect");
       if (in.emptyNames) vh::stat("empty_field_names", in.emptyNames); if (in.zeroRaw) vh::stat("zero_length_raw_items", in.zeroRaw); if (in.emptyStr) vh::stat("empty_strings", in.emptyStr);
-      if (in.utf8Str) vh::stat("non_ascii_utf8_strings", in.utf8Str); if (in.nonUtf8) vh::stat("msgs_with_non_utf8_strings"); if (in.nonAsciiName) vh::stat("msgs_with_non_ascii_field_names"); if (s.f.empty()) vh::stat("empty_messages");
+      if (in.userTyped) vh::stat("user_typed_fields", in.userTyped); if (in.pyStrFields) vh::stat("user_typed_fields_with_str_items_in_python", in.pyStrFields); if (in.utf8Str) vh::stat("non_ascii_utf8_strings", in.utf8Str); if (in.nonUtf8) vh::stat("msgs_with_non_utf8_strings"); if (in.nonAsciiName) vh::stat("msgs_with_non_ascii_field_names"); if (s.f.empty()) vh::stat("empty_messages");
       if (vh::want_sample()) vh::sample(vh::fmt("case %ld: %zu bytes ", k, bc.size()) + curJson.substr(0, 300));
    }
 }
 
 static Prof WireProf()
 {
-   Prof p; p.pySafe = R(5) != 0; p.nonAsciiNames = R(20) == 0; p.big = R(8) == 0; p.maxDepth = R(12) == 0 ? 6 : 3;
+   Prof p; p.pySafe = R(5) != 0; p.nonAsciiNames = R(6) == 0; p.big = R(8) == 0; p.maxDepth = R(12) == 0 ? 6 : 3;
    return p;
 }
 
@@ -824,7 +836,7 @@ static void RunFrame(long k)
 {
    caseBad = false; deferredKey.clear();
    if (ugIn.empty()) { ugIn.resize(2 * 1024 * 1024); ugOut.resize(2 * 1024 * 1024); }
-   Prof p; p.pySafe = true; p.nonAsciiNames = !Masked("pynames") && R(15) == 0; p.big = R(4) == 0; p.maxDepth = 3;
+   Prof p; p.pySafe = true; p.nonAsciiNames = !Masked("pynames") && R(5) == 0; p.big = R(4) == 0; p.maxDepth = 3;
    const uint32 n = 1 + (R(3) == 0 ? R(12) : R(4));
    std::vector<Scr> ss; std::vector<MessageRef> ms; std::vector<std::string> bodies; std::string doc; bool nonAscii = false; Info tot;
    curJson = "[";
